@@ -785,11 +785,28 @@ def merge_rules(run, r_bases, r_ids, ast):
                             continue
                         fdids = {y["ref"]["did"] for y in astq.walk(lp["cond"]) if y.get("k") == "DeclRefExpr" and y["ref"]["did"] in flags}
                         inits = [d.get("init") for st in astq.walk(f["body"]) if st.get("k") == "DeclStmt" for d in st["decls"] if d.get("did") in fdids]
-                        for ini in inits:
-                            e = astq.strip(ini) if ini is not None else None
-                            if not (e is not None and e.get("k") == "CXXBoolLiteralExpr" and e.get("v")):
-                                run.instance(r_bases, "%s: the closure of the base lists runs for every registry (its first pass is unconditional)" % short(f), (f["file"], lp["l"]), ok=False)
-                                run.violation(r_bases, "compiler::augment_classes|closure-conditional", "the closure loop only starts if `%s`: registries for which that is false (every class registered once, with its direct bases only) keep incomplete base lists" % (astq.text(ini)[:70] if ini is not None else "?"), (f["file"], lp["l"]))
+                        # the values the flag can hold when the loop is reached: its initialiser, or (declared without one)
+                        # what is assigned to it outside the loop
+                        inloop = {id(y) for y in astq.walk(lp)}
+                        starts = [ini for ini in inits if ini is not None]
+                        if not starts:
+                            for y in astq.walk(f["body"]):
+                                if id(y) in inloop or y.get("k") != "BinaryOperator" or y.get("op") != "=":
+                                    continue
+                                lhs = astq.strip(y["c"][0]) or {}
+                                if lhs.get("k") == "DeclRefExpr" and lhs["ref"]["did"] in fdids:
+                                    starts.append(y["c"][1])
+                        for ini in starts:
+                            e = astq.strip(ini)
+                            if e is not None and e.get("k") == "CXXBoolLiteralExpr" and e.get("v"):
+                                continue
+                            # "there is at least one class" is as good as true: an empty registry has nothing to close
+                            t = re.sub(r"\bthis->", "", astq.text(ini))
+                            t = re.sub(r"\s+", "", t)
+                            if re.fullmatch(r"\(?!empty\((Policy::)?classes\.empty\)\)?|\(?size\((Policy::)?classes\.size\)!=0\)?|\(?0(<|!=)size\((Policy::)?classes\.size\)\)?", t):
+                                continue
+                            run.instance(r_bases, "%s: the closure of the base lists runs for every registry (its first pass is unconditional)" % short(f), (f["file"], lp["l"]), ok=False)
+                            run.violation(r_bases, "compiler::augment_classes|closure-conditional", "the closure loop only starts if `%s`: registries for which that is false (every class registered once, with its direct bases only) keep incomplete base lists" % astq.text(ini)[:70], (f["file"], lp["l"]))
             overwritten = None
             if closure and not okc:
                 # the flag of the fixpoint loop is ASSIGNED a per-class verdict (not set on every insertion, not accumulated): whether
